@@ -1,7 +1,10 @@
 """C07 - Every output format encodes the same derivation.
 
 (a) correspondence: the Coq encoder models of coq/Fmt.v, FmtDeriv.v (auto_extended, conll + dependency column, json, deriv, the batch
-    assembly / numbering of to_string, xml_of, to_jigg_xml, to_prolog_*, to_mathml) against the real encoders, exactly.
+    assembly / numbering of to_string, xml_of, to_jigg_xml, to_prolog_*, to_mathml) against the real encoders, exactly;
+    coq/FmtProlog.v (prolog, English and Japanese: per tree and per batch with the header lines), coq/FmtHtml.v (html: per tree, per batch
+    = the whole document, and the regex segmentation of category texts) against the real printers, exact strings; and the Coq READERS of
+    the prolog text (token level), of the MathML element tree and of the deriv text (coq/FmtDerivText.v) run on the REAL printers' output.
 (b) oracle (harness/fmt_oracle.py + fmt_dec.py): independent readers of all eleven formats decode what the real
     encoders print and are compared with the derivation that was encoded.
 """
@@ -10,6 +13,9 @@ import gen
 import fmt_gen
 import fmt_oracle
 import fmt_dec
+import fmt_prolog_cases
+import fmt_derivtext_cases
+import fmt_html_cases
 from gallina import lit, gtree, gopt, glist, gnat, gbool
 from depccg.lang import set_global_language_to
 from depccg.tree import Tree, ScoredTree
@@ -154,6 +160,34 @@ def run(ctx):
     nb = 70 if ctx.quick else 1500          # random batches per language
     tree_cases, tree_descr, batch_cases, batch_descr, num_cases, num_descr = [], [], [], [], [], []
     seen_trees = set()
+    # text-level models added later: prolog (FmtProlog.v), html (FmtHtml.v), the deriv text reader (FmtDerivText.v)
+    pl_cases, pl_descr, dt_cases, dt_descr, html_cases, html_descr = [], [], [], [], [], []
+    seen_scan = set()
+
+    def add_text_level(t, lang, kind, only_prolog=False):
+        """one tree through the prolog / html printers (exact strings; the Coq readers on the real text) and the deriv text reader"""
+        d = {'lang': lang, 'kind': kind, 'tree': repr(gen.tree_sig(t))[:1500], 't': t}
+        c = fmt_prolog_cases.tree_case(t, lang, rng.randint(1, 12))
+        if c is None:
+            ctx.count(f'prolog:outside_lower_domain:{lang}')     # str.lower() would act beyond A-Z: outside the model (FmtProlog.v)
+        else:
+            pl_cases.append(c)
+            pl_descr.append(d)
+            ctx.count(f'corr_prolog_tree:{lang}')
+        if only_prolog:
+            return
+        dt_cases.append(fmt_derivtext_cases.tree_case(t))
+        dt_descr.append(d)
+        ctx.count('corr_html_tree:seen')
+        if not ctx.quick or ctx.stats['corr_html_tree:seen'] % 2 == 1:      # the MathML texts are long: every other tree in the quick tier
+            html_cases.append(fmt_html_cases.tree_case(t))
+            html_descr.append(d)
+            for n in fmt_oracle.t_nodes(t):                                  # the regex segmentation on the category texts met (each once)
+                cs = str(n.cat)
+                if cs not in seen_scan and (not ctx.quick or len(seen_scan) < 150):
+                    seen_scan.add(cs)
+                    html_cases.append(fmt_html_cases.scan_case(cs))
+                    html_descr.append({'kind': 'scan', 'text': cs})
 
     def report(kind, desc, data):
         ctx.fail(kind, desc, data)
@@ -175,6 +209,7 @@ def run(ctx):
         tree_cases.append(f'all_true (ChkTree {gtree(t)} {gtext_opt(ax)} {gtext_opt(co)} {gopt(deps, lambda d: glist(d, gnat))} {gj(js)} {gbool(readable)} {gtext_opt(dv)})')
         tree_descr.append({'lang': lang, 'kind': kind, 'tree': repr(gen.tree_sig(t))[:1500], 'gallina': (gtree(t), gtext_opt(ax), gtext_opt(co), gopt(deps, lambda d: glist(d, gnat)), gj(js), gbool(readable), gtext_opt(dv))})
         ctx.count(f'corr_tree:{lang}:{kind}')
+        add_text_level(t, lang, kind)
 
     def add_batch(batch, lang):
         gb = glist(batch, lambda trees: glist(trees, lambda st: f'({lit(f"{st.score:.8f}")},{lit(repr(float(st.score)))},{gtree(st.tree)})'))
@@ -184,6 +219,19 @@ def run(ctx):
         jexp = None if jtxt is None else json.loads(jtxt)
         batch_cases.append(f'ChkBatch {gb} {gtext_opt(ax)} {gtext_opt(co)} {gopt(jexp, gj)}')
         batch_descr.append({'lang': lang, 'shape': [len(x) for x in batch]})
+        add_docs(batch, lang)
+
+    def add_docs(batch, lang):
+        """whole documents (header lines included): to_string(batch, format='prolog' | 'html')"""
+        d = {'lang': lang, 'kind': 'document', 'shape': [len(x) for x in batch]}
+        c = fmt_prolog_cases.batch_case(batch, lang)
+        if c is not None:
+            pl_cases.append(c)
+            pl_descr.append(d)
+            ctx.count(f'corr_prolog_doc:{lang}')
+        if not ctx.quick or len(batch) == 0 or ctx.stats.get(f'corr_prolog_doc:{lang}', 0) % 2 == 1 or any(len(x) == 0 for x in batch):
+            html_cases.append(fmt_html_cases.batch_case(batch))
+            html_descr.append(d)
 
     for lang in ('en', 'ja'):
         set_global_language_to(lang)
@@ -232,11 +280,28 @@ def run(ctx):
         for _ in range(20 if ctx.quick else 250):
             t, kind = malformed_tree(rng, lang)
             add_tree(t, lang, 'malformed:' + kind, readable=(kind in ('noword', 'typekey')))
+        # trees aimed at the branches of the prolog printers (wrappers conj / conj2 / lp over functor and atomic categories, labels outside
+        # the tables, quotes and backslashes in every quoted field, punctuation categories, `case` in every position, missing words)
+        for t in fmt_prolog_cases.special_trees(rng, lang, 60 if ctx.quick else 800):
+            add_text_level(t, lang, 'prolog_special', only_prolog=True)
+        for b in ([], [[]], [[ScoredTree(batches[0][0][0][0].tree, -1.5)], []]):
+            add_docs(b, lang)
         # empty batches
     batch_cases.append('ChkBatch [] None None None')
+    # the regex of _mathml_cat and html.escape on texts that are not category texts (stray / nested / empty brackets, newlines, entities)
+    for x in ['', 'a[]]b', '[x]', 'a[b][c]d', 'a[', 'a[b', ']a[', 'a[\n]b', 'a[b\nc]d', 'S[dcl]]', '[[a]]', 'a[]', 'a[][b]', ']', '[', 'x[y]z[w]']:
+        html_cases.append(fmt_html_cases.scan_case(x))
+        html_descr.append({'kind': 'scan', 'text': x})
+    for _ in range(60 if ctx.quick else 2000):
+        x = ''.join(rng.choice('a[]\n(/S&<') for _ in range(rng.randint(0, 10)))
+        html_cases.append(fmt_html_cases.scan_case(x))
+        html_descr.append({'kind': 'scan', 'text': x})
+    for x in ['', '&', '&amp;', '&amp;amp;', '<>', '"', "'", '&#x27;', '&lt', 'a&b<c>d"e\'f', '&&', '&#38;', '\u00e9&\u732b'] + [gen.rand_word(rng) for _ in range(30 if ctx.quick else 500)]:
+        html_cases.append(fmt_html_cases.escape_case(x))
+        html_descr.append({'kind': 'escape', 'text': x})
     batch_descr.append({'shape': []})
 
-    bad = ctx.coq_cases('trees', PRE, tree_cases, chunk=60, describe=lambda i: {k: v for k, v in tree_descr[i].items() if k != 'gallina'})
+    bad = ctx.coq_cases('trees', PRE, tree_cases, chunk=max(8, len(tree_cases) // 16 + 1), describe=lambda i: {k: v for k, v in tree_descr[i].items() if k != 'gallina'})
     if bad:
         # which sub-check disagrees
         names = ['print_autox', 'print_conll', 'deps_of', 'enc_json', 'dec_autox on the real line', 'dec_json on the real dict', 'print_deriv / dec_deriv']
@@ -244,11 +309,19 @@ def run(ctx):
             g = tree_descr[i]['gallina']
             sub = ctx.coq_cases(f'trees_detail_{i}', PRE, [f'nth {k} (ChkTree {" ".join(g)}) false' for k in range(7)])
             ctx.notes.append(f'model/implementation disagreement on {tree_descr[i]["kind"]} tree {tree_descr[i]["tree"][:300]}: ' + ', '.join(names[k] for k in (sub or [])))
-    bb = ctx.coq_cases('batches', PRE, [f'all_true ({c})' for c in batch_cases], chunk=12, describe=lambda i: batch_descr[i])
+    bb = ctx.coq_cases('batches', PRE, [f'all_true ({c})' for c in batch_cases], chunk=max(2, len(batch_cases) // 16 + 1), describe=lambda i: batch_descr[i])
     for i in (bb or [])[:3]:
         sub = ctx.coq_cases(f'batches_detail_{i}', PRE, [f'nth {k} ({batch_cases[i]}) false' for k in range(3)])
         ctx.notes.append(f'batch assembly disagreement on {batch_descr[i]}: ' + ', '.join(['to_string auto_extended', 'to_string conll', 'to_string json'][k] for k in (sub or [])))
     ctx.coq_cases('numbering', PRE, num_cases, chunk=300, describe=lambda i: num_descr[i])
+    ctx.coq_cases('prolog', fmt_prolog_cases.PRE_PROLOG, pl_cases, chunk=max(8, len(pl_cases) // 16 + 1), describe=lambda i: {k: v for k, v in pl_descr[i].items() if k != 't'})
+    ctx.coq_cases('deriv_text', fmt_derivtext_cases.PRE_DERIVTEXT, dt_cases, chunk=max(8, len(dt_cases) // 16 + 1), describe=lambda i: {k: v for k, v in dt_descr[i].items() if k != 't'})
+    hb = ctx.coq_cases('html', fmt_html_cases.PRE_HTML, html_cases, chunk=max(8, len(html_cases) // 16 + 1),
+                       describe=lambda i: {k: v for k, v in html_descr[i].items() if k != 't'})
+    for i in [i for i in (hb or []) if 't' in html_descr[i]][:3]:
+        names = ['mathml_subtree (text)', 'hser_list (mathml_nodes)', 'dec_mathml on the element tree', 'hparse on the real string', 'hparse + dec_mathml_list on the real string']
+        sub = ctx.coq_cases(f'html_detail_{i}', fmt_html_cases.PRE_HTML, [fmt_html_cases.tree_case_detail(html_descr[i]['t'], k) for k in range(5)])
+        ctx.notes.append(f'html model/implementation disagreement on {html_descr[i]["tree"][:300]}: ' + ', '.join(names[k] for k in (sub or [])))
 
     for f in fmt_oracle.FORMATS:
         ok = ctx.stats.get(f'decoded:{f}', 0) > 0 and ctx.stats.get(f'decoded:{f}', 0) >= 0.9 * sum(v for k, v in ctx.stats.items() if k == 'decoded:json')
@@ -259,7 +332,12 @@ def run(ctx):
                     'xml.py, jigg_xml.py, prolog.py, html.py (tied by the correspondence cases of this run: exact strings / ordered dicts / numbers)',
                     'translator translate/gen_tables.py (denormalize tables, puncts, cat_split class)',
                     'json.dumps / json.loads, lxml serialisation and html.parser (library text round trips)',
-                    'harness/fmt_dec.py readers of the eleven formats and harness/fmt_oracle.py (format definitions restated in Python)']
+                    'harness/fmt_dec.py readers of the eleven formats and harness/fmt_oracle.py (format definitions restated in Python)',
+                    'hand-written models coq/FmtProlog.v (printer/prolog.py: _prolog_category_string, _escape_prolog, _prolog_string, to_prolog_en, to_prolog_ja; '
+                    'str.lower modelled on A-Z only - trees whose category names the real str.lower changes elsewhere are not compared, counted as prolog:outside_lower_domain), '
+                    'coq/FmtHtml.v (printer/html.py: _mathml_cat incl. the regular expression as a scanner, _mathml_subtree, to_mathml + _MATHML_MAIN; format constants hand-copied), '
+                    'coq/FmtDerivText.v (reader only) - tied by the exact-string correspondence sets prolog / html / deriv_text of this run; rule tables from GenTables.v',
+                    'harness/fmt_prolog_cases.py, fmt_html_cases.py, fmt_derivtext_cases.py (case construction; re.findall / html.escape / the real printers are called there)']
     return ctx.finish(
         level='proof',
         rule='inputs = batches of 1-4 sentences x 1-3 best for en and ja; first tree of a sentence from gen.licensed_tree (real rule functions over the shipped '
@@ -272,10 +350,19 @@ def run(ctx):
              'jigg shape+cats([f=true])+rule+begin/end+token table+ids; deriv words+leaf cats+every inner node (span from the dash extent, symbol, category) - the '
              'whole shape is recovered because unary and binary steps each print their own dash line; html shape+cats+op_string+word; prolog shape+cats(lower-case, '
              'punctuation names)+functor+token fields.  Correspondence cases = Coq model output vs real encoder output (strings / ordered dict / numbers) per tree and '
-             'per batch, plus a malformed stream (token without word, token keys shadowing cat/children/type)',
+             'per batch, plus a malformed stream (token without word, token keys shadowing cat/children/type).  Text-level sets: prolog = print_prolog_en / print_prolog_ja and '
+             'prolog_en_doc / prolog_ja_doc (header lines included) against _prolog_string / to_prolog_ja / to_string, plus the Coq token-level reader run on the REAL text '
+             '(inside pl_okb_*), on every correspondence tree and on trees aimed at the wrappers conj / conj2 / lp, labels outside the tables, quotes / backslashes in quoted fields, '
+             'missing words; html = mathml_subtree, the serialised element tree, dec_mathml, hparse on the REAL string, html_doc against to_string(format=html), mathml_scan against '
+             're.findall on category texts and bracket soups, html_escape against html.escape; deriv_text = the Coq text reader on the REAL deriv_of text (inside deriv_text_okb)',
         assumptions=['words, token values and rule labels: printable, non-empty, no blank, no backslash (the quantifier of the property); token keys do not include cat / children '
                      '(json) or start / span / id (xml, jigg)',
                      'n-best trees of one sentence are over the same tokens (jigg_xml and html print the tokens / words of the first tree only)',
                      'ja text / prolog: pos and inflection values contain no "/" and no "}" (they are joined with those characters); '
                      'rule symbols do not start with "-" (deriv) ; categories wf (CatFacts.wf) for the Coq round-trip theorems',
-                     'scores are formatted by Python and passed to the model as opaque text'])
+                     'scores are formatted by Python and passed to the model as opaque text',
+                     'prolog round-trip theorems: quoted fields without backslash, category atoms are names (pl_okb_en / pl_okb_ja, both hold on every shipped lexical category: '
+                     'P_C07 ex_shipped_prolog_*); model of str.lower exact on A-Z only (ASCII category names)',
+                     'html round-trip theorems: no newline inside a category feature (cats_nonl; C07_html_roundtrip_newline_refuted is the witness that html.py:63 loses the brackets otherwise), '
+                     'words / rule labels non-empty for the text-level statement; the document around the <math> elements is compared as a string only',
+                     'deriv text theorem: words non-empty and free of str.isspace() characters, printed categories and rule symbols free of newlines, symbols not starting with "-"'])
